@@ -396,6 +396,11 @@ impl H {
     }
     /// post-order list of (type, pointer) of every handle occurrence
     fn occ(&self, v: &mut Vec<(u8, usize)>) { for k in self.kids() { k.occ(v); } v.push((self.ty(), self.ptr())); }
+    /// handles in the order the decoder produces them: a repeated allocation is one handle (a reference), not a subtree
+    fn occ_prod(&self, seen: &mut std::collections::HashSet<(u8, usize)>, v: &mut Vec<(u8, usize)>) {
+        if seen.insert((self.ty(), self.ptr())) { for k in self.kids() { k.occ_prod(seen, v); } }
+        v.push((self.ty(), self.ptr()));
+    }
 }
 fn mk(it: &Interner, ty: u8, label: u8, kids: Vec<H>) -> H {
     match ty { 0 => H::A(it.intern(NodeA { label, kids })), 1 => H::B(it.intern(NodeB { label, kids })), 2 => H::S(it.intern_unsized::<[u8], Vec<u8>>(vec![label])), _ => H::T(it.intern_unsized::<str, String>(format!("{:x}", label))) }
@@ -437,7 +442,8 @@ fn enc_case(rng: &mut Rng, out: &mut Out, rep: &mut Report) {
                 if t2 != terms || dec != top { rep.fail("dec-values-differ", format!("mode {mode}: decoded values differ from the originals"), line.clone()); }
                 if classes(&occ) != classes(&orig_occ) { rep.fail("dec-sharing-differs", format!("mode {mode}: sharing partition {} vs original {}", classes(&occ), classes(&orig_occ)), line.clone()); }
                 if mode == "live" && occ.iter().zip(orig_occ.iter()).any(|(a, b)| a != b) { rep.fail("dec-not-canonical", format!("mode {mode}: decoded handles are not the live originals' allocations"), line.clone()); }
-                format!("dec-ok {} share={}", t2, classes(&occ))
+                let mut prod = vec![]; let mut seen = Default::default(); for h in &dec { h.occ_prod(&mut seen, &mut prod); }
+                format!("dec-ok {} share={}", t2, classes(&prod))
             }
             Ok(Err(e)) => { rep.fail("dec-error", format!("mode {mode}: {e}"), line.clone()); "dec-error".into() }
             Err(_) => { rep.fail("dec-panic", format!("mode {mode}: decode panicked"), line.clone()); "panic".into() }
@@ -468,7 +474,8 @@ fn enc_dropped_case(rng: &mut Rng, out: &mut Out, rep: &mut Report) {
         Ok(Ok(dec)) => { let t2 = dec.iter().map(|h| h.term(&it)).collect::<Vec<_>>().join(" "); let mut occ = vec![]; for h in &dec { h.occ(&mut occ); }
             if t2 != terms { rep.fail("dec-values-differ", "mode really-dropped".into(), line.clone()); }
             if classes(&occ) != orig_classes { rep.fail("dec-sharing-differs", "mode really-dropped".into(), line.clone()); }
-            format!("dec-ok {} share={}", t2, classes(&occ)) }
+            let mut prod = vec![]; let mut seen = Default::default(); for h in &dec { h.occ_prod(&mut seen, &mut prod); }
+            format!("dec-ok {} share={}", t2, classes(&prod)) }
         Ok(Err(e)) => { rep.fail("dec-error", format!("{e}"), line.clone()); "dec-error".into() }
         Err(_) => { rep.fail("dec-panic", "decode panicked (really-dropped originals)".into(), line.clone()); "panic".into() } };
     out.line(&line, &ans);
